@@ -65,7 +65,8 @@ class X509Tracker(TagTracker):
     def on_tag_refine(self, ps, tag, val, state):
         state = dict(state)
         if tag == "vr":
-            state[("E", "vr")] = av.is_const(val)
+            # PS_TRUE, or any value shown to be non-zero, counts as 'flag true'
+            state[("E", "vr")] = 1 if not av.possible_value(val, 0) else av.is_const(val)
         else:
             state[("E", tag)] = classify(val)
         return state
@@ -127,7 +128,7 @@ def run(tier):
         ent = per.setdefault(block["id"], {"ln": ln, "n": 0, "bad1": None, "bad2": None})
         ent["n"] += 1
         e = lambda t: state.get(("E", t))
-        verified = e("vsig") == "zero" and e("vr") == c["PS_TRUE"]
+        verified = e("vsig") in ("zero", "nonneg") and e("vr") == 1
         identical = e("cmp:sigHash") == "zero" and e("cmp:signature") == "zero"
         if not (verified or identical) and ent["bad1"] is None:
             ent["bad1"] = ("psVerifySig=%s result-flag=%s cmp(signature)=%s cmp(sigHash)=%s" % (
